@@ -108,10 +108,10 @@ def _call(cs, f, s):
         return s.rename(P.dec(cs['name']))
     if op == 'f_insert':
         ins = P.build_frame(cs['ins'])
-        return (f.insert_after if cs['after'] else f.insert_before)(P.dec(cs['key']), ins)
+        return (f.insert_after if cs['after'] else f.insert_before)(sf.ILoc[cs['key'][1]] if cs['key'][0] == 'iloc' else P.dec(cs['key']), ins)
     if op == 's_insert':
         ins = P.build_series(cs['ins'])
-        return (s.insert_after if cs['after'] else s.insert_before)(P.dec(cs['key']), ins)
+        return (s.insert_after if cs['after'] else s.insert_before)(sf.ILoc[cs['key'][1]] if cs['key'][0] == 'iloc' else P.dec(cs['key']), ins)
     # ---- C14
     if op == 's_isna':
         return s.notna() if cs['neg'] else s.isna()
